@@ -25,7 +25,7 @@ def seq(xs):
     return "<<" + ",".join(str(x) for x in xs) + ">>"
 
 
-def scenario(k, cfg, role, same, long):
+def scenario(k, cfg, role, same, long, twobyte=False):
     """Model constants + driver constants of one configuration/role."""
     tag, fix, eih, padmax = k["StreamTag"], k["TCPRequestFixedLengthHeaderLength"], k["IdentityHeaderLength"], k["MaxPaddingLength"]
     al = k["Socks5IPv4AddrLen"]
@@ -38,6 +38,10 @@ def scenario(k, cfg, role, same, long):
         hdr = cfg["RspPfx"] + cfg["KeyLen"] + fix + cfg["KeyLen"] + tag
         gs, gv = [3, 2, 5], [-1, 2, -1]
         xs, xv = [2, 2, 7], [2, 2, -1]
+        if twobyte:
+            # the victim's first payload chunk (the one the response header announces, read by its own code path) is the
+            # two bytes 00 02: sealed, it has the size of a length chunk and the value of the next length chunk's size
+            gs, gv = [2, 2, 5], [2, 2, -1]
     if long:
         gs, gv = gs + [2, 4], gv + [4, -1]
         xs, xv = xs + [3], xv + [-1]
@@ -111,16 +115,21 @@ def run(tier, seed, replay_file):
         if r.violation:
             raise vlib.Broken("the design violates %s in %s: %s" % (r.violation, name, r.out[-1500:]))
 
-    def graph(name, cfg, role, same, maxops, max_paths, long=False):
+    def graph(name, cfg, role, same, maxops, max_paths, long=False, ascoded=False):
         """Every edge of the state graph is replayed at byte level on the real endpoint.  The graph is that of
         the model variant the code follows: the design (a failed read is final) if the after-failure
         counterexample is not reproduced, else the code as it is (without the invariants that variant breaks)."""
-        model, drv = scenario(k, cfg, role, same, long)
-        model.update(Latch=stream.boolstr(state["latched"]), MaxOps=maxops, MaxReads=len(drv["GSizes"]) + 3, EMIT="ACTION_CONSTRAINT Emit")
-        g = vlib.tlc(SPEC, "MCSS2022Attack", "MCSS2022Attack.cfg" if state["latched"] else "MCSS2022AttackAsCoded.cfg", model, workers=per,
+        model, drv = scenario(k, cfg, role, same, long, twobyte=ascoded)
+        # ascoded: the graph of the variant WITHOUT error latching, whatever the code follows -- every continuation after every
+        # failed call (first payload chunk, length chunk, payload chunk, header) is then tried on the real endpoint, which must
+        # keep failing; where the model delivers data the driver notes drift, and reports a violation only for bytes that the real
+        # endpoint returns and the genuine peer did not send
+        latched = state["latched"] and not ascoded
+        model.update(Latch=stream.boolstr(latched), MaxOps=maxops, MaxReads=len(drv["GSizes"]) + 3, EMIT="ACTION_CONSTRAINT Emit")
+        g = vlib.tlc(SPEC, "MCSS2022Attack", "MCSS2022Attack.cfg" if latched else "MCSS2022AttackAsCoded.cfg", model, workers=per,
                      timeout=2400, edges=True, heap="6g")
         if g.violation:
-            raise vlib.Broken("the %s model violates %s in %s: %s" % ("design" if state["latched"] else "as-coded", g.violation, name, g.out[-1500:]))
+            raise vlib.Broken("the %s model violates %s in %s: %s" % ("design" if latched else "as-coded", g.violation, name, g.out[-1500:]))
         gr = vlib.Graph(g)
         paths, left = gr.cover(seed=seed, max_len=16, max_paths=max_paths)
         feed("attack replay " + name, drv, [gr.behaviour(p) for p in paths])
@@ -180,6 +189,8 @@ def run(tier, seed, replay_file):
                         jobs.append(("graph2-" + nm, graph, ("graph2-" + nm, cfg, role, same, 2, 2500)))
                     jobs.append(("graph-" + nm, graph, ("graph-" + nm, cfg, role, same, 1, None, cfg is primary)))
         jobs.append(("cex-server", after_failure_cex, ("cex-server", primary, "server", True)))
+    # after-failure sweep: all continuations of the unlatched variant, victim with the two-byte first payload
+    jobs.append(("ascoded-client-2b", graph, ("ascoded-client-2b", primary, "client", True, 1, None if big else 1200, False, True)))
     if ONLY:
         jobs = [j for j in jobs if j[0] in ONLY]
     from concurrent.futures import ThreadPoolExecutor
